@@ -3,233 +3,237 @@ import CalicoVerif.Proofs.C27
 C27 — Felix configuration resolves by source priority, deterministically.
 
 Property theorems only (vocabulary and helper lemmas: `CalicoVerif.Proofs.C27`; model:
-`CalicoVerif.Model.C27`). All theorems quantify over EVERY context `c : Ctx` (any parameter table,
-any parse function, any lower-casing function) and every assignment `srcs : Sources` of ordered key
-lists to the six sources.
+`CalicoVerif.Model.C27`, of the code after commits be6f163 and f0ff295). All theorems quantify over
+EVERY context `c : Ctx` (any parameter table, any parse function, any lower-casing function, any
+total order on key names — `OrderOK`) and every assignment `srcs : Sources` of key lists (in any
+order) to the six sources; `KeysNodup` says that a source is a Go map (exact keys distinct).
 
-Two parts of the property are FALSE of the current code (DESIGN §5); they are kept visible as the
-full-strength propositions `ShadowedIrrelevant` / `OrderIndependent`, refuted by concrete witnesses
-(`…_false`), and proved in the strongest form that holds (`…_partial`).
+Both statements that were false of the code before those commits (DESIGN §5: a shadowed fatal value
+set `Err`; two keys of one source differing only in case resolved in map order) are now proved at
+FULL strength: `shadowed_irrelevant`, `order_independent`.
 -/
 namespace CalicoVerif.C27
 
-/-! ## What the current code does about `Err` -/
+/-! ## `Err` -/
 
-/-- `resolve` fails (sets `Err`) iff ANY key of ANY source — shadowed or not — that is not a datastore
-value of a local-only parameter carries a fatal value (`none` on a non-zero parameter, or an invalid
-value of a die-on-parse-failure parameter). Independent of every order. -/
-theorem resolve_fatal_iff (c : Ctx) (srcs : Sources) :
-    resolve c srcs = none ↔ ∃ s kv, kv ∈ srcs s ∧ fatalKey c (s, kv) := by
-  unfold resolve
-  rw [foldlM_step_none_iff]
-  constructor
-  · rintro ⟨t, ht, hf⟩; exact ⟨t.1, t.2, mem_flat.1 ht, hf⟩
-  · rintro ⟨s, kv, hm, hf⟩; exact ⟨(s, kv), mem_flat.2 hm, hf⟩
+/-- `resolve` fails (sets `Err`) iff some known parameter has a fatal value (`none` on a non-zero
+parameter, or an invalid value of a die-on-parse-failure parameter) among the keys of ITS deciding
+source — the highest-priority source that sets it, datastore sources not counting for local-only
+parameters. (If that source spells the parameter several ways, each spelling counts.) Keys of lower
+sources never matter. -/
+theorem resolve_fatal_iff (c : Ctx) (srcs : Sources) : resolve c srcs = none ↔ FatalTop c srcs :=
+  resolve_none_iff c srcs
+
+/-- The executable `resolveP` used by the `Config` object model (it also yields the state left behind
+by a failed run) agrees with `resolve`. -/
+theorem resolveP_spec (c : Ctx) (srcs : Sources) :
+    resolve c srcs = if (resolveP c srcs).2 then none else some (resolveP c srcs).1 :=
+  foldl_stepP c (flat c srcs) St.empty
 
 /-! ## Resolution by priority -/
 
-/-- For every known parameter, when `resolve` succeeds on sources whose keys are distinct up to case,
-the field holds exactly what the DECIDING key (the key for it in the highest-priority source that sets
-it, datastore sources not counting for local-only parameters) says: its parsed value, the zero value
-for `none`, the default if it is invalid and not fatal (`valOf`); and it is left at what
-`applyDefaults` wrote (`lookup = none`) when no source sets it. -/
-theorem resolve_by_priority (c : Ctx) (srcs : Sources) (hd : DistinctLower c srcs) (st : St)
+/-- For every known parameter, when `resolve` succeeds, the field holds exactly what the DECIDING key
+says: its parsed value, the zero value for `none`, the default if it is invalid and not fatal
+(`valOf`); it is left at what `applyDefaults` wrote (`lookup = none`) when no source sets it. -/
+theorem resolve_by_priority (c : Ctx) (srcs : Sources) (st : St)
     (h : resolve c srcs = some st) (l : String) (m : Meta) (hk : c.known l = some m) :
-    st.fields.lookup l = (deciding c srcs l m).bind (fun t => valOf c m t.2.2) := by
-  have hp := congrArg Prod.fst (resolve_proj c srcs hd st h l m hk)
+    st.fields.lookup l = (winner c srcs l m).bind (fun t => valOf c m t.2.2) := by
+  have hp := congrArg Prod.fst (resolve_proj c srcs st h l m hk)
   simp only [proj] at hp
   rw [hp]
-  cases hdec : deciding c srcs l m with
+  cases hw : winner c srcs l m with
   | none => rfl
   | some t =>
-    obtain ⟨v, hv⟩ := deciding_not_fatal c srcs (by rw [h]; simp) l m hk t hdec
-    simp [hv]
+    simp only [Option.bind_some]
+    cases hv : valOf c m t.2.2 with
+    | some v => rfl
+    | none =>
+      exfalso
+      -- the winner's value is parsed, so a fatal one would have failed `resolve`
+      have hnone : resolve c srcs = none := by
+        rw [resolve_none_iff]
+        unfold winner at hw
+        obtain ⟨s, _, hws, hall⟩ := (findSome?_sorted _ _ descending_sorted t).1 hw
+        obtain ⟨h1, ha⟩ := winnerIn_fst hws
+        subst h1
+        have hl : lastMatch c l (sortKeys c (srcs t.1)) = some t.2 := by
+          unfold winnerIn at hws
+          simp only [ha, if_true, Option.map_eq_some_iff] at hws
+          obtain ⟨kv, hkv, e⟩ := hws
+          rw [← e]; exact hkv
+        have hm := lastMatch_some hl
+        refine ⟨l, m, t.1, t.2, hk, ⟨⟨ha, t.2, mem_sortKeys.1 hm.1, hm.2⟩, ?_⟩, mem_sortKeys.1 hm.1, hm.2, hv⟩
+        intro s' hlt
+        exact winnerIn_none_iff.1 (hall s' (mem_descending s') hlt)
+      rw [h] at hnone; cases hnone
 
-/-- The same statement for `nameToSource`: the source recorded for a parameter is the deciding one. -/
-theorem resolve_source_by_priority (c : Ctx) (srcs : Sources) (hd : DistinctLower c srcs) (st : St)
+/-- Who the deciding key is, without reference to sorting: it sits in the highest-priority source
+holding an admissible key for the parameter, and among that source's spellings of the parameter it
+is the greatest one in the key order. It is unique. -/
+theorem deciding_key_spec (c : Ctx) (ho : OrderOK c) (srcs : Sources) (hn : KeysNodup srcs)
+    (l : String) (m : Meta) (t : Src × KV) :
+    winner c srcs l m = some t ↔ IsWinner c srcs l m t :=
+  winner_eq_some_iff c ho srcs hn l m t
+
+/-- … and no source sets the parameter iff there is no deciding key. -/
+theorem no_deciding_key_iff (c : Ctx) (srcs : Sources) (l : String) (m : Meta) :
+    winner c srcs l m = none ↔ ∀ s, ¬ HasKey c srcs l m s :=
+  winner_none_iff c srcs l m
+
+/-- The source recorded in `nameToSource` for a parameter is the deciding one. -/
+theorem resolve_source_by_priority (c : Ctx) (srcs : Sources) (st : St)
     (h : resolve c srcs = some st) (l : String) (m : Meta) (hk : c.known l = some m) :
-    st.cur l = ((deciding c srcs l m).map (fun t => t.1.prio)).getD 0 := by
-  have hp := congrArg Prod.snd (resolve_proj c srcs hd st h l m hk)
+    st.cur l = ((winner c srcs l m).map (fun t => t.1.prio)).getD 0 := by
+  have hp := congrArg Prod.snd (resolve_proj c srcs st h l m hk)
   simp only [proj] at hp
   rw [hp]
-  cases deciding c srcs l m <;> rfl
+  cases winner c srcs l m <;> rfl
 
-/-! ## Datastore values of local-only parameters are ignored (full strength) -/
+/-! ## Shadowed values (full strength) -/
 
-/-- Removing every datastore (non-local source) key of every local-only parameter changes NOTHING:
-the whole loop result (fields, raw values, sources, and whether `Err` is set) is identical — whatever
-those keys' values are (invalid and fatal ones included), with no assumption on the sources. -/
-theorem nonlocal_ignored_for_local_params (c : Ctx) (srcs : Sources) :
-    resolve c (dropNonLocal c srcs) = resolve c srcs := by
-  unfold resolve dropNonLocal
-  rw [flat_filter srcs (fun s kv => !nonLocalOfLocal c s kv)]
-  exact foldlM_filter_ident c _ (fun st t ht => step_nonLocal c st t ht) _ _
+/-- Deleting every shadowed key — every key of a known parameter that sits in a source below the one
+that decides the parameter — changes neither `Err` nor any field, WHATEVER the shadowed values are
+(invalid and fatal ones included). -/
+theorem shadowed_irrelevant (c : Ctx) (ho : OrderOK c) (srcs : Sources) (hn : KeysNodup srcs) :
+    SameResult c (resolve c srcs) (resolve c (pruneShadowed c srcs)) := by
+  have hn' : KeysNodup (pruneShadowed c srcs) := keysNodup_filter hn _
+  cases hr : resolve c srcs with
+  | none =>
+    have : resolve c (pruneShadowed c srcs) = none := by
+      rw [resolve_none_iff, fatalTop_prune, ← resolve_none_iff]; exact hr
+    rw [this]; trivial
+  | some st =>
+    cases hr' : resolve c (pruneShadowed c srcs) with
+    | none =>
+      rw [resolve_none_iff, fatalTop_prune, ← resolve_none_iff, hr] at hr'; cases hr'
+    | some st' =>
+      intro l m hk
+      rw [resolve_by_priority c srcs st hr l m hk, resolve_by_priority c _ st' hr' l m hk]
+      have : winner c (pruneShadowed c srcs) l m = winner c srcs l m := by
+        cases hw : winner c srcs l m with
+        | none =>
+          rw [winner_none_iff] at hw ⊢
+          intro s hh
+          exact hw s ((hasKey_prune hk s).1 hh).1
+        | some t =>
+          rw [winner_eq_some_iff c ho _ hn', isWinner_prune c srcs l m hk,
+            ← winner_eq_some_iff c ho srcs hn]
+          exact hw
+      rw [this]
 
-/-- Hence two assignments that differ only in such keys resolve identically. -/
-theorem nonlocal_ignored_for_local_params' (c : Ctx) (srcs srcs' : Sources)
-    (h : dropNonLocal c srcs = dropNonLocal c srcs') : resolve c srcs = resolve c srcs' := by
-  rw [← nonlocal_ignored_for_local_params c srcs, ← nonlocal_ignored_for_local_params c srcs', h]
-
-/-! ## Shadowed values -/
-
-/-- FULL-STRENGTH statement (property text: "values from lower-priority sources that are shadowed …
-never affect the result"): deleting every shadowed key leaves the result (`Err`, every field) as it was. -/
-def ShadowedIrrelevant : Prop :=
-  ∀ (c : Ctx) (srcs : Sources), DistinctLower c srcs →
-    SameResult c (resolve c srcs) (resolve c (pruneShadowed c srcs))
-
-/-- Witness context: one parameter `p`, die-on-parse-failure; the only valid raw value is `"1"`. -/
+/-- The pre-fix witness (env `p=1`, global `p=bogus` on a die-on-parse-failure parameter; the
+DESIGN §5 `MetadataPort` example) now resolves. -/
 def wCtx (die nonZero : Bool) : Ctx :=
   { lower := fun s => if s = "P" then "p" else s
     known := fun l => if l = "p" then some ⟨"P", false, die, nonZero⟩ else none
-    parse := fun _ raw => if raw = "1" then some "one" else if raw = "2" then some "two" else none }
+    parse := fun _ raw => if raw = "1" then some "one" else if raw = "2" then some "two" else none
+    keyLe := fun a b => decide (a ≤ b) }
 
-/-- env `p=1`, global `p=bogus` (the DESIGN §5 witness `MetadataPort`). -/
+theorem wCtx_orderOK (d z : Bool) : OrderOK (wCtx d z) where
+  total a b := by
+    simp only [wCtx, Bool.or_eq_true, decide_eq_true_eq]
+    exact String.le_total a b
+  trans a b d' h1 h2 := by
+    simp only [wCtx, decide_eq_true_eq] at *
+    exact String.le_trans h1 h2
+  antisymm a b h1 h2 := by
+    simp only [wCtx, decide_eq_true_eq] at *
+    exact String.le_antisymm h1 h2
+
 def wShadowed : Sources := fun s => match s with
   | .env => [("p", "1")] | .global => [("p", "bogus")] | _ => []
-
-/-- env `p=1`, global `p=none` on a non-zero parameter. -/
 def wShadowedNone : Sources := fun s => match s with
   | .env => [("p", "1")] | .global => [("p", "none")] | _ => []
 
-theorem wShadowed_distinct (d z : Bool) (w : Sources)
-    (hw : ∀ s, (w s).length ≤ 1) : DistinctLower (wCtx d z) w := by
-  intro s
+def wFatalTop : Sources := fun s => match s with | .env => [("p", "bogus")] | _ => []
+
+theorem wSorted1 (d z : Bool) (w : Sources) (hw : ∀ s, (w s).length ≤ 1) (s : Src) :
+    (w s).Pairwise (fun a b => (wCtx d z).keyLe a.1 b.1 = true) := by
   have := hw s
   match h : w s with
   | [] => exact List.Pairwise.nil
   | [_] => exact List.pairwise_singleton _ _
   | _ :: _ :: _ => rw [h] at this; simp at this
 
-/-- The shadowed global value is fatal for the whole resolution … -/
-theorem shadowed_fatal_witness :
-    resolve (wCtx true false) wShadowed = none ∧
-    (resolve (wCtx true false) (pruneShadowed (wCtx true false) wShadowed)).isSome = true ∧
-    resolve (wCtx false true) wShadowedNone = none ∧
-    (resolve (wCtx false true) (pruneShadowed (wCtx false true) wShadowedNone)).isSome = true := by
-  refine ⟨by decide, by decide, by decide, by decide⟩
+theorem shadowed_fatal_regression :
+    (resolve (wCtx true false) wShadowed).map (fun st => st.fields.lookup "p") = some (some (.parsed "one")) ∧
+    (resolve (wCtx false true) wShadowedNone).map (fun st => st.fields.lookup "p") = some (some (.parsed "one")) ∧
+    -- the same fatal value in the DECIDING source is still fatal
+    resolve (wCtx true false) wFatalTop = none := by
+  rw [resolve_eq_resolveSorted _ _ (wSorted1 _ _ _ (by intro s; cases s <;> simp [wShadowed])),
+    resolve_eq_resolveSorted _ _ (wSorted1 _ _ _ (by intro s; cases s <;> simp [wShadowedNone])),
+    resolve_eq_resolveSorted _ _ (wSorted1 _ _ _ (by intro s; cases s <;> simp [wFatalTop]))]
+  refine ⟨by decide, by decide, by decide⟩
 
-/-- … so the full-strength statement is FALSE of the current code. -/
-theorem shadowed_irrelevant_false : ¬ ShadowedIrrelevant := by
-  intro h
-  have h1 := h (wCtx true false) wShadowed
-    (wShadowed_distinct _ _ _ (by intro s; cases s <;> simp [wShadowed]))
-  have h2 := shadowed_fatal_witness
-  rw [h2.1] at h1
-  cases hr : resolve (wCtx true false) (pruneShadowed (wCtx true false) wShadowed) with
-  | none => rw [hr] at h2; simp at h2
-  | some st => rw [hr] at h1; exact h1
+/-! ## Order in which keys are read (full strength) -/
 
-/-- What holds: if no key anywhere is fatal (i.e. `resolve` succeeds), deleting every shadowed key
-changes neither `Err` nor any field. Missing for full strength: a shadowed key with a FATAL value
-(invalid for a die-on-parse-failure parameter, or `none` for a non-zero one) still sets `Err`, because
-`resolve` parses before it tests `source < currentSource`. -/
-theorem shadowed_irrelevant_partial (c : Ctx) (srcs : Sources) (hd : DistinctLower c srcs)
-    (hok : resolve c srcs ≠ none) :
-    SameResult c (resolve c srcs) (resolve c (pruneShadowed c srcs)) := by
-  have hd' : DistinctLower c (pruneShadowed c srcs) :=
-    distinctLower_filter hd (fun s kv => !shadowed c srcs s kv)
-  have hok' : resolve c (pruneShadowed c srcs) ≠ none := by
-    intro hn
-    apply hok
-    rw [resolve_fatal_iff] at hn ⊢
-    obtain ⟨s, kv, hm, hf⟩ := hn
-    exact ⟨s, kv, (List.mem_filter.1 hm).1, hf⟩
-  cases hr : resolve c srcs with
-  | none => exact absurd hr hok
-  | some st =>
-    cases hr' : resolve c (pruneShadowed c srcs) with
-    | none => exact absurd hr' hok'
-    | some st' =>
-      intro l m hk
-      rw [resolve_by_priority c srcs hd st hr l m hk,
-        resolve_by_priority c _ hd' st' hr' l m hk, deciding_prune c srcs hd l m hk]
+/-- The sources are Go maps: whatever order each source's keys are listed (iterated) in, `resolve`
+gives the identical result — every field, the raw values, the recorded sources, and `Err` —
+because it sorts the keys. -/
+theorem order_independent (c : Ctx) (ho : OrderOK c) (srcs srcs' : Sources) (hn : KeysNodup srcs)
+    (hp : ∀ s, (srcs' s).Perm (srcs s)) : resolve c srcs' = resolve c srcs := by
+  have : flat c srcs' = flat c srcs := by
+    unfold flat
+    congr 1
+    funext s
+    rw [sortKeys_eq_of_perm c ho (hp s).symm (hn s)]
+  unfold resolve
+  rw [this]
 
-/-! ## Order in which keys are read -/
-
-/-- FULL-STRENGTH statement: the sources are Go maps (exact keys distinct); whatever order each
-source's keys are read in, the result is the same. -/
-def OrderIndependent : Prop :=
-  ∀ (c : Ctx) (srcs srcs' : Sources), (∀ s, ((srcs s).map (·.1)).Nodup) →
-    (∀ s, (srcs' s).Perm (srcs s)) → SameResult c (resolve c srcs) (resolve c srcs')
-
-/-- One source (config file) with keys `P=1` and `p=2` (cf. `{LogSeverityScreen:INFO,
-logseverityscreen:DEBUG}`), read in the two possible orders. -/
+/-- The pre-fix witness: one source with keys `P=1` and `p=2`; both listing orders now give the
+value of the greater spelling `p`. -/
 def wOrderA : Sources := fun s => match s with | .file => [("P", "1"), ("p", "2")] | _ => []
 def wOrderB : Sources := fun s => match s with | .file => [("p", "2"), ("P", "1")] | _ => []
 
-/-- The key read last wins: the two orders give different values. -/
-theorem case_variant_order_witness :
+theorem wOrderA_sorted (s : Src) :
+    (wOrderA s).Pairwise (fun a b => (wCtx false false).keyLe a.1 b.1 = true) := by
+  cases s <;> simp [wOrderA, wCtx] <;> decide
+
+theorem case_variant_order_regression :
     (resolve (wCtx false false) wOrderA).map (fun st => st.fields.lookup "p") = some (some (.parsed "two")) ∧
-    (resolve (wCtx false false) wOrderB).map (fun st => st.fields.lookup "p") = some (some (.parsed "one")) := by
+    (resolve (wCtx false false) wOrderB).map (fun st => st.fields.lookup "p") = some (some (.parsed "two")) := by
+  have hB : resolve (wCtx false false) wOrderB = resolve (wCtx false false) wOrderA :=
+    order_independent _ (wCtx_orderOK _ _) _ _ (by intro s; cases s <;> simp [wOrderA])
+      (by
+        intro s
+        cases s <;> simp only [wOrderA, wOrderB, List.Perm.refl]
+        exact List.Perm.swap _ _ _)
+  rw [hB, resolve_eq_resolveSorted _ _ wOrderA_sorted]
   refine ⟨by decide, by decide⟩
 
-theorem order_independent_false : ¬ OrderIndependent := by
-  intro h
-  have h1 := h (wCtx false false) wOrderA wOrderB
-    (by intro s; cases s <;> simp [wOrderA])
-    (by
-      intro s
-      cases s <;> simp only [wOrderA, wOrderB, List.Perm.refl]
-      exact List.Perm.swap _ _ _)
-  have ⟨ha, hb⟩ := case_variant_order_witness
-  cases hra : resolve (wCtx false false) wOrderA with
-  | none => rw [hra] at ha; simp at ha
-  | some sa =>
-    cases hrb : resolve (wCtx false false) wOrderB with
-    | none => rw [hrb] at hb; simp at hb
-    | some sb =>
-      rw [hra, hrb] at h1
-      rw [hra] at ha; rw [hrb] at hb
-      have := h1 "p" ⟨"P", false, false, false⟩ (by simp [wCtx])
-      simp only [Option.map_some, Option.some.injEq] at ha hb
-      rw [ha, hb] at this
-      simp at this
+/-! ## Datastore values of local-only parameters are ignored (full strength) -/
 
-/-- What holds: if no two keys of one source differ only in case, every order of reading the keys
-gives the same `Err` and the same value in every field. Missing for full strength: two keys of one
-source that differ only in case are both applied, and the one read last wins. -/
-theorem order_independent_partial (c : Ctx) (srcs srcs' : Sources) (hd : DistinctLower c srcs)
-    (hp : ∀ s, (srcs' s).Perm (srcs s)) : SameResult c (resolve c srcs) (resolve c srcs') := by
-  have hd' : DistinctLower c srcs' := fun s => pairwise_perm (hp s).symm (hd s)
-  have hnone : resolve c srcs = none ↔ resolve c srcs' = none := by
-    rw [resolve_fatal_iff, resolve_fatal_iff]
-    constructor
-    · rintro ⟨s, kv, hm, hf⟩; exact ⟨s, kv, (hp s).mem_iff.2 hm, hf⟩
-    · rintro ⟨s, kv, hm, hf⟩; exact ⟨s, kv, (hp s).mem_iff.1 hm, hf⟩
-  cases hr : resolve c srcs with
-  | none => rw [hnone.1 hr]; trivial
-  | some st =>
-    cases hr' : resolve c srcs' with
-    | none => rw [hnone.2 hr'] at hr; cases hr
-    | some st' =>
-      intro l m hk
-      rw [resolve_by_priority c srcs hd st hr l m hk, resolve_by_priority c srcs' hd' st' hr' l m hk]
-      have : deciding c srcs' l m = deciding c srcs l m := by
-        unfold deciding
-        congr 1
-        funext s
-        unfold decidingIn
-        rw [find?_keyFor_perm c l (hp s) (hd' s)]
-      rw [this]
+/-- Removing every datastore (non-local source) key of every local-only parameter changes NOTHING:
+fields, raw values, recorded sources and `Err` are identical, whatever those keys' values are. -/
+theorem nonlocal_ignored_for_local_params (c : Ctx) (ho : OrderOK c) (srcs : Sources) (hn : KeysNodup srcs) :
+    resolve c (dropNonLocal c srcs) = resolve c srcs := by
+  unfold resolve dropNonLocal
+  rw [flat_filter c ho srcs hn (fun s kv => !nonLocalOfLocal c s kv)]
+  exact foldlM_filter_ident c _ (fun st t ht => step_nonLocal c st t ht) _ _
+
+/-- Hence two assignments that differ only in such keys resolve identically. -/
+theorem nonlocal_ignored_for_local_params' (c : Ctx) (ho : OrderOK c) (srcs srcs' : Sources)
+    (hn : KeysNodup srcs) (hn' : KeysNodup srcs')
+    (h : dropNonLocal c srcs = dropNonLocal c srcs') : resolve c srcs = resolve c srcs' := by
+  rw [← nonlocal_ignored_for_local_params c ho srcs hn, ← nonlocal_ignored_for_local_params c ho srcs' hn', h]
 
 /-! ## Non-vacuity -/
 
-/-- A three-source assignment with distinct keys that resolves: env decides `p`, the shadowed global
-value is valid; the field is the env value. -/
 def wOk : Sources := fun s => match s with
   | .env => [("P", "1")] | .global => [("p", "2")] | _ => []
 
-example : DistinctLower (wCtx true true) wOk :=
-  wShadowed_distinct _ _ _ (by intro s; cases s <;> simp [wOk])
+example : KeysNodup wOk := by intro s; cases s <;> simp [wOk]
+example : KeysNodup wOrderA := by intro s; cases s <;> simp [wOrderA]
 example : (resolve (wCtx true true) wOk).map (fun st => st.fields.lookup "p") = some (some (.parsed "one")) := by
-  decide
-example : deciding (wCtx true true) wOk "p" ⟨"P", false, true, true⟩ = some (.env, ("P", "1")) := by decide
+  rw [resolve_eq_resolveSorted _ _ (wSorted1 _ _ _ (by intro s; cases s <;> simp [wOk]))]; decide
+example : IsWinner (wCtx true true) wOk "p" ⟨"P", false, true, true⟩ (.env, ("P", "1")) := by
+  refine ⟨⟨⟨by decide, ("P", "1"), by simp [wOk], by decide⟩, ?_⟩, by simp [wOk], by decide, ?_⟩
+  · intro s' hlt; cases s' <;> simp [Src.prio] at hlt <;> simp [HasKey, wOk]
+  · intro kv' hkv' _; simp [wOk] at hkv'; subst hkv'; decide
 example : (pruneShadowed (wCtx true true) wOk) .global = [] := by decide
-example : resolve (wCtx true true) wOk ≠ none := by decide
+example : (pruneShadowed (wCtx true false) wShadowed) .global = [] := by decide
 /-- local-only parameter set from the datastore: ignored, even though the value is fatal. -/
 def wLocalCtx : Ctx := { wCtx true true with known := fun l => if l = "p" then some ⟨"P", true, true, true⟩ else none }
-example : (dropNonLocal wLocalCtx wShadowed) .global = [] ∧ (resolve wLocalCtx wShadowed).isSome = true := by
-  decide
+example : (dropNonLocal wLocalCtx wShadowed) .global = [] := by decide
 
 end CalicoVerif.C27
